@@ -10,12 +10,13 @@
 (***************************************************************************)
 EXTENDS Naturals, Sequences, FiniteSets, TLC, Json
 
-CONSTANTS Jobs, Depth
+CONSTANTS Jobs, Depth,
+          Fresh      \* jobs whose identifier has not changed (their directory already is where a resubmission looks)
 VARIABLES loc, link, hist
 vars == <<loc, link, hist>>
 
-Init == /\ loc = [j \in Jobs |-> "old"]
-        /\ link \in [Jobs -> {"none", "ok", "dangling"}]
+Init == /\ loc = [j \in Jobs |-> IF j \in Fresh THEN "new" ELSE "old"]
+        /\ link \in {f \in [Jobs -> {"none", "ok", "dangling"}] : \A j \in Fresh : f[j] = "none"}
         /\ hist = <<[a |-> "init", loc |-> loc, link |-> link]>>
 
 FixOne(l, k, fix, cleanup) ==
@@ -44,5 +45,7 @@ Idempotent == [][\A f, c \in BOOLEAN : Fix(f, c) =>
                    \A j \in Jobs : FixOne(loc'[j], link'[j], f, c) = <<loc'[j], link'[j]>>]_vars
 (* what was reachable stays reachable when repairing *)
 NeverLosesReach == [][\A c \in BOOLEAN : Fix(TRUE, c) => \A j \in Jobs : Reachable(j) => (loc'[j] = "new" \/ link'[j] = "ok")]_vars
+(* a job whose identifier has not changed is left where it is *)
+FreshUntouched == \A j \in Fresh : loc[j] = "new" /\ link[j] = "none"
 Emit == Len(hist) = Depth + 1 => PrintT(<<"BEH", ToJson(hist)>>)
 =============================================================================
